@@ -28,6 +28,17 @@ def run(tier):
     chk.assumptions = [META["note"]]
     recs, verdicts, states, trans = lifecycle.record_and_judge("c03", tier)
     chk.states, chk.transitions = states, trans
+    if tier == "thorough":
+        # exhaustive sub-space: all 65536 byte pairs in each of five positions
+        r2, v2, s2, t2 = lifecycle.sweep("c03")
+        off = len(recs)
+        for v in v2:
+            v["i"] += off
+        recs, verdicts = recs + r2, verdicts + v2
+        chk.states += s2
+        chk.transitions += t2
+        chk.extra["byte_pair_sweep_documents"] = sum(1 for r in r2 if r["ev"] == "Save")
+        chk.extra["byte_pair_sweep_exhaustive"] = True
     for v in verdicts:
         rec = recs[v["i"]]
         if rec["ev"] != "Save":
